@@ -32,6 +32,7 @@ GENERATORS = {
     "TryRoute_gen": "translator.gen_tryroute",
     "MultiFactShape_gen": "translator.gen_mfshape",
     "Routed_gen": "translator.gen_routed",
+    "CteShape_gen": "translator.gen_cte",
 }
 
 
